@@ -450,6 +450,23 @@ def run(tier="quick", seed=0):
                 eseeds = tuple(range(3)) if thorough else (elong % 3,)
                 evaluate(p, eseeds, eseeds, (1.0,))
                 elong += 1
+        # (G) a global reservation against several resource exceptions, one of them on a DEAD chip (the dead chip's entry may be
+        #     the tightest one): the live chips' capacities after the reservation are what counts
+        for (w, h) in ((3, 1), (2, 2)):
+            chips = [(x, y) for x in range(w) for y in range(h)]
+            for di, dchip in enumerate(chips):
+                for lchip in [c for c in chips if c != dchip][:2]:
+                    for dq in (0, 1, 2):
+                        for lq in (1, 2):
+                            for g in (1, 2, 3):
+                                for pinned in (False, True):
+                                    exc = OrderedDict()
+                                    first, second = ((dchip, (dq,)), (lchip, (lq,))) if (di + g) % 2 == 0 else ((lchip, (lq,)), (dchip, (dq,)))
+                                    exc[first[0]] = first[1]
+                                    exc[second[0]] = second[1]
+                                    p = {"w": w, "h": h, "caps": (4,), "dead": (dchip,), "exc": exc, "needs": [(1,), (1,)],
+                                         "loc": [(1, lchip)] if pinned else [], "same": [], "gres": [(0, 0, g)], "lres": [], "nets": [(1, [2], 1.0)]}
+                                    evaluate(p, (0,), (0,), (0.1,), only=("sequential", "breadth_first", "hilbert", "rcm", "rand", "sa_python_kernel"))
         # (F) machines of more than a thousand chips with a handful of vertices: the orderings the placers compute over the
         #     whole machine (breadth-first / depth-first / Hilbert / RCM walks over the chip graph) must cope with its size
         for (w, h) in ((36, 36), (40, 30)):
@@ -466,7 +483,7 @@ def run(tier="quick", seed=0):
     viol = [v for _, v in sorted(found.values(), key=lambda sv: sv[1]["clause"])]
     return {"name": "c02_place", "evaluations": st["ev"], "distinct_nontrivial": st["problems"],
             "rule": "a problem = (machine, vertex need vectors, location set, same-chip set, global reservations, per-chip reservations, nets) from menus: "
-                    "family F: 36x36 and 40x30 machines (one dead chip) with 20 one-core vertices in a chain, the five placers that order the whole machine; the annealer (Python kernel) also with an observing progress callback; family E: 14 larger / elongated machine shapes (1x4 ... 16x1, 3x12, 6x4) with one core per chip, exactly filled with one-core vertices, with and without a dead chip, every placer; %d machine shapes (1x1, 2x1, 1x2, 2x2 with dead-chip sets incl. all-dead) x %d resource layouts (chip resources (4,4)/(2)/(3,2)/(1,1)/(3) of Cores/SDRAM; "
+                    "family G: 3x1 and 2x2 machines with a resource exception on a dead chip (0..2 cores) and on a live chip (1..2), a global reservation of 1..3 cores, a vertex pinned to the live exception chip or not; family F: 36x36 and 40x30 machines (one dead chip) with 20 one-core vertices in a chain, the five placers that order the whole machine; the annealer (Python kernel) also with an observing progress callback; family E: 14 larger / elongated machine shapes (1x4 ... 16x1, 3x12, 6x4) with one core per chip, exactly filled with one-core vertices, with and without a dead chip, every placer; %d machine shapes (1x1, 2x1, 1x2, 2x2 with dead-chip sets incl. all-dead) x %d resource layouts (chip resources (4,4)/(2)/(3,2)/(1,1)/(3) of Cores/SDRAM; "
                     "0-2 chip_resource_exceptions on the first / last / a dead chip), "
                     "%d need-vector sets (all for <= 2 vertices with needs 0..2 of 2 resources; 3 and 4 vertices: all single-resource 0..2 / 0..1 / 1..2 vectors and mixed ones%s), "
                     "%d location sets (<= 3, duplicated, on a dead chip), %d same-chip sets (chained, duplicated member, repeated group, overlapping, empty/singleton), "
